@@ -1742,7 +1742,7 @@ impl Domain for D {
             }
         }
         // random server histories
-        let n_hist = if thorough { 800 } else { 56 };
+        let n_hist = if thorough { 800 } else { 112 };
         for k in 0..n_hist {
             let ver = if rng.chance(1, 6) { 1 } else { 2 };
             let hv = if rng.chance(1, 5) { 1 + rng.below(2) as u32 } else { 0 };
